@@ -13,6 +13,7 @@
 -/
 import Rva.Proofs.C03c
 import Rva.Proofs.C16b
+import Rva.Proofs.C05b
 namespace Rva
 
 /-- `a → b` is a fall-through or the jump written in instruction `a` (in the graph as built) -/
@@ -544,5 +545,52 @@ theorem pipeline_edge_kinds (desc : Bool) (nodes : List Node) (g : Cfg)
                       rw [← (same1.2 a).2, ← (same1.2 b).2]
                       exact ⟨ha, hb'⟩
                   · exact absurd h (by simp)
+
+/-! ### "unreachable code" is only ever said of an instruction without an incoming edge -/
+
+theorem entryPredDiags_code (g : Cfg) (cn : CNode) (p : Nat) :
+    ∀ x ∈ entryPredDiags g cn p, x.code ≠ "unreachable-code" := by
+  intro x hx
+  unfold entryPredDiags at hx
+  simp only [] at hx
+  split at hx
+  · simp at hx
+  · split at hx
+    · simp only [List.mem_map] at hx
+      obtain ⟨_, _, rfl⟩ := hx
+      rw [show (onNode "FirstInstructionIsFunction" cn.node).code = "first-instruction-is-function" from
+        code_of _ _ _ _ _ _ (by decide)]
+      decide
+    · split at hx
+      · simp only [List.mem_singleton] at hx
+        subst hx
+        rw [show (onNode "InvalidJumpToFunction" cn.node).code = "invalid-jump-to-function" from
+          code_of _ _ _ _ _ _ (by decide)]
+        decide
+      · simp at hx
+
+/-- **C03 (`unreachable_only_without_edge`).** Every 'unreachable code' item of the control-flow
+    pass stands on a node of the finished graph that has no predecessor (and is neither the
+    program entry nor a function entry); with `pipeline_symm`, no node has an edge to it. -/
+theorem unreachable_only_without_edge (g : Cfg) (x : Diag) (hx : x ∈ lintControlFlow g)
+    (hc : x.code = "unreachable-code") :
+    ∃ cn ∈ g.nodes.toList, x = unreachableDiag cn ∧ cn.prevs = [] ∧ cn.node.isProgramEntry = false ∧
+      cn.node.isFunctionEntry = false := by
+  unfold lintControlFlow at hx
+  rw [List.mem_flatMap] at hx
+  obtain ⟨cn, hcn, hx⟩ := hx
+  refine ⟨cn, hcn, ?_⟩
+  unfold controlFlowAt at hx
+  split at hx
+  · rw [List.mem_flatMap] at hx
+    obtain ⟨p, _, hp⟩ := hx
+    exact absurd hc (entryPredDiags_code g cn p x hp)
+  · rename_i hfe
+    split at hx
+    · rename_i hcond
+      simp only [List.mem_singleton] at hx
+      simp only [Bool.and_eq_true, Bool.not_eq_true', List.isEmpty_iff] at hcond
+      exact ⟨hx, hcond.2, hcond.1, by simpa using hfe⟩
+    · simp at hx
 
 end Rva
